@@ -32,6 +32,11 @@ func CheckC10(r *Report) {
 	each30 := func(a spec.Assignment, o *CVSS30T) (string, string, string) { return v3CheckObj(I30, a, o) }
 	each31 := func(a spec.Assignment, o *CVSS31T) (string, string, string) { return v3CheckObj(I31, a, o) }
 	devs := v3Devs()
+	// bound 0: the canonical representatives themselves (all Modified metrics X), so that a shortcut taken only
+	// when nothing is overridden is compared with the same oracle as its explicit-copy twins
+	sweepV3(r, I30)
+	sweepV3(r, I31)
+	SweepV4(r, "C10", nil, true)
 	// bound 1
 	for _, d := range devs {
 		sweepV3Lift(r, I31, []v3Dev{d}, !thorough, each31)
